@@ -26,6 +26,8 @@ type Token struct {
 	Text string
 	// AfterDot: identifier directly after . or ?. (property access)
 	AfterDot bool
+	// BlockEnd: a } that closes a statement block (a following / starts a regular expression), not an object literal
+	BlockEnd bool
 	// PropKey: identifier directly followed by ':' or '(' inside an object/class body is not decided here
 }
 
@@ -46,6 +48,37 @@ func Lex(src string) []Token {
 	// template nesting: stack of brace depths at which a template substitution was opened
 	var tmplStack []int
 	braceDepth := 0
+	// kind of every open brace: true = statement block / function or class body, false = object literal or pattern
+	var braceIsBlock []bool
+	blockPosition := func() bool {
+		for k := len(toks) - 1; k >= 0; k-- {
+			t := toks[k]
+			if t.Kind == Comment {
+				continue
+			}
+			switch t.Kind {
+			case Punct:
+				switch t.Text {
+				case ";", "{", ")", "=>":
+					return true
+				case "}":
+					return t.BlockEnd
+				}
+				return false
+			case Ident:
+				if t.AfterDot {
+					return false
+				}
+				switch t.Text {
+				case "return", "typeof", "in", "of", "instanceof", "new", "delete", "void", "throw", "case", "yield", "await", "default", "export":
+					return false
+				}
+				return true // else do try finally, class A {, label-less names in front of a body
+			}
+			return false
+		}
+		return true
+	}
 	regexAllowed := func() bool {
 		for k := len(toks) - 1; k >= 0; k-- {
 			t := toks[k]
@@ -64,8 +97,10 @@ func Lex(src string) []Token {
 				return keywordsBeforeRegex[t.Text]
 			case Punct:
 				switch t.Text {
-				case ")", "]", "}", "++", "--":
-					return false // approximation: `}` may end a block (regex allowed) - rare in minified/generated statement starts
+				case "}":
+					return t.BlockEnd
+				case ")", "]", "++", "--":
+					return false
 				}
 				return true
 			}
@@ -245,12 +280,18 @@ func Lex(src string) []Token {
 					if p == "?." && i+2 < n && src[i+2] >= '0' && src[i+2] <= '9' {
 						continue
 					}
-					toks = append(toks, Token{Kind: Punct, Text: p})
+					tok := Token{Kind: Punct, Text: p}
 					if p == "{" {
+						braceIsBlock = append(braceIsBlock, blockPosition())
 						braceDepth++
 					} else if p == "}" {
+						if len(braceIsBlock) > 0 {
+							tok.BlockEnd = braceIsBlock[len(braceIsBlock)-1]
+							braceIsBlock = braceIsBlock[:len(braceIsBlock)-1]
+						}
 						braceDepth--
 					}
+					toks = append(toks, tok)
 					i += len(p)
 					matched = true
 					break
